@@ -182,6 +182,23 @@ func c04Case(c *core.Case) {
 			p.Blocks = append(p.Blocks, b)
 		}
 	}
+	if gen.Chance(r, 0.1) {
+		// one schema names the same attribute twice (as hcldec.ImpliedSchema does when
+		// two specs read one attribute): nothing changes in what is found
+		var cands []int
+		for i, p := range parts {
+			if len(p.Attributes) > 0 {
+				cands = append(cands, i)
+			}
+		}
+		if len(cands) > 0 {
+			p := parts[gen.Pick(r, cands)]
+			dup := gen.Pick(r, p.Attributes)
+			p.Attributes = append(append([]hcl.AttributeSchema(nil), p.Attributes...), dup)
+			union.Attributes = append(union.Attributes, dup)
+			c.Count("schema:attribute-named-twice")
+		}
+	}
 	// (the parts are compared with a private copy after the run: schemas belong to the caller)
 	partsCopy := make([]string, k)
 	for i, p := range parts {
